@@ -21,10 +21,21 @@ impl Stream {
     }
 }
 
+/// Number of encodings.
+pub const NENC: u8 = 4;
+
 pub fn serialize(w: &g::Wd, enc: u8) -> Result<Stream, String> {
     match enc {
-        0 | 1 => {
-            let ser = Serializer::builder().is_human_readable(enc == 0).build();
+        0 | 1 | 3 => {
+            // 3: compact, with structs written as plain sequences, the way formats that are not
+            // self-describing (bincode and the like) do; this is what reaches the `visit_seq` side of
+            // the library's struct visitors.
+            let mut b = Serializer::builder();
+            b.is_human_readable(enc == 0);
+            if enc == 3 {
+                b.serialize_struct_as(serde_assert::ser::SerializeStructAs::Seq);
+            }
+            let ser = b.build();
             match w.serialize(&ser) {
                 Ok(t) => Ok(Stream::Tokens { readable: enc == 0, tokens: t.0 }),
                 Err(e) => Err(format!("{e}")),
